@@ -53,7 +53,7 @@ CHECKS['C09'] = dict(
     ref='6/C09')
 CHECKS['C20'] = dict(
     technique='TLA+ machine of ForestVisitor.visit model-checked on all small graphs incl. cyclic (termination as liveness under fairness) + trace validation of real visit() callback sequences (synthetic graphs and real SPPFs) + TreeForestTransformer results judged against the derivation-set oracle',
-    text='TLC proves on every graph with 3 inner nodes and a token leaf (successor lists with repetitions, both single_visit settings) that the walk terminates, keeps no node twice on the path, reports cycles exactly on back edges; the callback sequence of the real visit() on the same graphs, on random larger graphs and on the real forests of parses (cyclic grammars included) must be exactly the machine\'s; TreeForestTransformer(resolve_ambiguity=False) expanded must equal the set of unshaped derivation trees of the compiled rules (EBNF.tla over lark\'s compiled rules), resolve_ambiguity=True one of them, is_ambiguous false on single derivations; cyclic grammars: termination and every tree a valid derivation tree. EarleyForest.tla adds the shared packed forest to the Earley machine and XEarleyForest.tla to the dynamic scanner (delayed matches, relabelling over ignored text): TLC proves that the forest stands for exactly the derivations (of all tilings of the text), each once, refutes the pinned carry-over of completed start items, and the labelled families of real forests are compared with the machine's. The overlapping-terminal family F_mtok (tokenisations enumerated, ignores overlapping terminals, directed one-symbol start rules over terminals with optional tails) judges forests under dynamic and dynamic_complete: soundness and the derivation count position-exact, completeness modulo token positions (lark merges token nodes by type and text).',
+    text='TLC proves on every graph with 3 inner nodes and a token leaf (successor lists with repetitions, both single_visit settings) that the walk terminates, keeps no node twice on the path, reports cycles exactly on back edges; the callback sequence of the real visit() on the same graphs, on random larger graphs and on the real forests of parses (cyclic grammars included) must be exactly the machine\'s; TreeForestTransformer(resolve_ambiguity=False) expanded must equal the set of unshaped derivation trees of the compiled rules (EBNF.tla over lark\'s compiled rules), resolve_ambiguity=True one of them, is_ambiguous false on single derivations; cyclic grammars: termination and every tree a valid derivation tree. EarleyForest.tla adds the shared packed forest to the Earley machine and XEarleyForest.tla to the dynamic scanner (delayed matches, relabelling over ignored text): TLC proves that the forest stands for exactly the derivations (of all tilings of the text), each once, refutes the pinned carry-over of completed start items, and the labelled families of real forests are compared with those of the machine. The overlapping-terminal family F_mtok (tokenisations enumerated, ignores overlapping terminals, directed one-symbol start rules over terminals with optional tails) judges forests under dynamic and dynamic_complete: soundness and the derivation count position-exact, completeness modulo token positions (lark merges token nodes by type and text).',
     note='unshaped derivations are over the compiled rules (C03 judges the compilation); three Earley lexers',
     ref='6/C20')
 
